@@ -44,7 +44,7 @@ theorem length_evalMux (w : Nat) (ins : Ins) : (evalMux w ins).length = w := by
   · simp
   · simp
   · split
-    · simp
+    · split <;> simp
     · dsimp only; split
       · simp
       · exact length_copyIn _ _
@@ -68,62 +68,6 @@ theorem mem_of_getD_some {l : Ins} {k : Nat} {u : BV4} (h : l.getD k none = some
     subst h
     exact List.mem_of_getElem? hk
 
-/-- merged (abstract, some selector bit undefined) against selected (concrete, selector defined): compatible -/
-theorem merge_compat_select (w : Nat) {data data' : Ins} (hc : InsCompat data data') (s : Nat) :
-    compat (tab w (mergeBit data)) (if s ≥ data'.length then undef w else copyIn w (data'.getD s none)) := by
-  split
-  · exact compat_undef_right (by simp)
-  · rename_i hs
-    refine ⟨by simp [length_copyIn], fun i => ?_⟩
-    rw [bit_tab]
-    by_cases hi : i < w
-    · simp only [hi, if_true]
-      by_cases hdef : (mergeBit data i).isDef = true
-      · have hk := insCompat_getD hc s
-        have hlen := forall₂_length hc
-        have hs' : s < data.length := by omega
-        -- the selected input on the abstract side carries the merged bit
-        have hmem : data.getD s none ∈ data := by
-          rw [List.getD_eq_getElem?_getD, List.getElem?_eq_getElem hs']; simp
-        obtain ⟨u, hu, hbit⟩ := mergeBit_def hdef _ hmem
-        rw [hu] at hk
-        cases hd' : data'.getD s none with
-        | none => rw [hd'] at hk; exact hk.elim
-        | some u' =>
-          rw [hd'] at hk
-          have hk : compat u u' := hk
-          simp only [copyIn, bit_tab, hi, if_true]
-          rw [← hbit]
-          exact hk.2 i
-      · have : mergeBit data i = .x := by
-          cases hm : mergeBit data i <;> simp_all [B4.isDef]
-        rw [this]; exact B4.compat_x_left _
-    · simp only [hi, if_false]; exact B4.compat_x_left _
-
-theorem merge_compat_merge (w : Nat) {data data' : Ins} (hc : InsCompat data data') :
-    compat (tab w (mergeBit data)) (tab w (mergeBit data')) := by
-  refine ⟨by simp, fun i => ?_⟩
-  rw [bit_tab, bit_tab]
-  by_cases hi : i < w
-  · simp only [hi, if_true]
-    by_cases h1 : (mergeBit data i).isDef = true
-    · by_cases h2 : (mergeBit data' i).isDef = true
-      · cases data with
-        | nil => simp [mergeBit, B4.isDef] at h1
-        | cons d0 rest =>
-          obtain ⟨d0', rest', rfl, hab, _⟩ := forall2_cons_inv hc
-          obtain ⟨u, hu, hb⟩ := mergeBit_def h1 d0 (List.mem_cons_self ..)
-          obtain ⟨u', hu', hb'⟩ := mergeBit_def h2 d0' (List.mem_cons_self ..)
-          subst hu; subst hu'
-          have : compat u u' := hab
-          rw [← hb, ← hb']
-          exact this.2 i
-      · have : mergeBit data' i = .x := by cases hm : mergeBit data' i <;> simp_all [B4.isDef]
-        rw [this]; exact B4.compat_x_right _
-    · have : mergeBit data i = .x := by cases hm : mergeBit data i <;> simp_all [B4.isDef]
-      rw [this]; exact B4.compat_x_left _
-  · simp [hi, B4.compat_refl]
-
 theorem copyIn_compat (w : Nat) {a b : Option BV4} (h : optCompat a b) : compat (copyIn w a) (copyIn w b) := by
   cases a <;> cases b <;> simp_all [optCompat, copyIn]
   · exact compat_refl _
@@ -143,122 +87,149 @@ theorem optCompat_some_inv {u : BV4} {o : Option BV4} (h : optCompat (some u) o)
   | none => exact h.elim
   | some v => exact ⟨v, rfl, h⟩
 
-/-- the multiplexer preserves compatibility of its inputs (although it is not monotone) -/
-theorem evalMux_compat (w : Nat) {a b : Ins} (h : InsCompat a b) : compat (evalMux w a) (evalMux w b) := by
+
+/-! ### the largest value an undefined selector may stand for -/
+
+theorem le_cons {a b : B4} {u v : BV4} (h : (a :: u) ⊑ (b :: v)) : B4.le a b ∧ u ⊑ v := by
+  refine ⟨by simpa using h.2 0, ?_, fun i => by simpa using h.2 (i + 1)⟩
+  have := h.1; simp at this; exact this
+
+theorem toNat_le_maxNat (v : BV4) : v.toNat ≤ v.maxNat := by
+  induction v with
+  | nil => simp [toNat, maxNat]
+  | cons b bs ih => cases b <;> simp [toNat, maxNat] <;> omega
+
+/-- refining a vector can only lower the largest value it may stand for -/
+theorem maxNat_anti {u v : BV4} (h : u ⊑ v) : v.maxNat ≤ u.maxNat := by
+  induction u generalizing v with
+  | nil =>
+    have : v = [] := List.eq_nil_of_length_eq_zero (by have := h.1; simp at this; omega)
+    subst this; simp [maxNat]
+  | cons a u ih =>
+    cases v with
+    | nil => have := h.1; simp at this
+    | cons b v =>
+      obtain ⟨hab, huv⟩ := le_cons h
+      have := ih huv
+      cases a <;> cases b <;> simp [B4.le] at hab <;> simp [maxNat] <;> omega
+
+/-- merged (some selector bit undefined) against selected (refined selector defined and in range) -/
+theorem merge_le_select (w : Nat) {data data' : Ins} (hd : InsLe data data') (s : Nat) (hs : s < data.length) :
+    tab w (mergeBit data) ⊑ copyIn w (data'.getD s none) := by
+  refine ⟨by simp [length_copyIn], fun i => ?_⟩
+  rw [bit_tab]
+  by_cases hi : i < w
+  · simp only [hi, if_true]
+    by_cases hdef : (mergeBit data i).isDef = true
+    · have hmem : data.getD s none ∈ data := by
+        rw [List.getD_eq_getElem?_getD, List.getElem?_eq_getElem hs]; simp
+      obtain ⟨u, hu, hbit⟩ := mergeBit_def hdef _ hmem
+      have hk := insLe_getD hd s
+      rw [hu] at hk
+      obtain ⟨u', hu', hle⟩ := optLe_some_inv hk
+      rw [hu']
+      simp only [copyIn, bit_tab, hi, if_true]
+      rw [← hbit]; exact hle.2 i
+    · have : mergeBit data i = .x := by cases hm : mergeBit data i <;> simp_all [B4.isDef]
+      rw [this]; exact B4.x_le _
+  · simp only [hi, if_false]; exact B4.x_le _
+
+/-- merging more defined inputs gives a more defined merge -/
+theorem merge_le_merge (w : Nat) {data data' : Ins} (hd : InsLe data data') :
+    tab w (mergeBit data) ⊑ tab w (mergeBit data') := by
+  have hlen := forall₂_length hd
+  apply tab_le
+  intro i _
+  by_cases hdef : (mergeBit data i).isDef = true
+  · -- every input of the refined list carries the same defined bit
+    have hall := mergeBit_def' hdef
+    have hall' : ∀ o', o' ∈ data' → optBit o' i = mergeBit data i := by
+      intro o' ho'
+      obtain ⟨k, hk, hget⟩ := List.getElem_of_mem ho'
+      have hk2 : k < data.length := by omega
+      have hle' := forall₂_getD hd none none trivial k
+      rw [List.getD_eq_getElem?_getD, List.getD_eq_getElem?_getD, List.getElem?_eq_getElem hk, List.getElem?_eq_getElem hk2] at hle'
+      simp only [Option.getD_some] at hle'
+      have h0 := hall data[k] (List.getElem_mem hk2)
+      rw [hget] at hle'
+      cases hdk : data[k] with
+      | none => rw [hdk] at h0; rw [← h0] at hdef; simp [optBit, B4.isDef] at hdef
+      | some v =>
+        rw [hdk] at hle' h0
+        obtain ⟨v', rfl, hle2⟩ := optLe_some_inv hle'
+        have := hle2.2 i
+        simp only [optBit] at h0 ⊢
+        rw [h0] at this
+        exact (B4.eq_of_le_of_isDef this hdef).symm
+    cases data' with
+    | nil =>
+      cases data with
+      | nil => simp [mergeBit, B4.isDef] at hdef
+      | cons _ _ => simp at hlen
+    | cons d0' rest' =>
+      have h0 := hall' d0' (List.mem_cons_self ..)
+      have : mergeBit (d0' :: rest') i = mergeBit data i := by
+        conv => lhs; unfold mergeBit
+        dsimp only
+        have hcond : ((optBit d0' i).isDef && rest'.all (fun o => (optBit o i).isDef && (optBit o i).val == (optBit d0' i).val)) = true := by
+          simp only [Bool.and_eq_true, List.all_eq_true, beq_iff_eq]
+          refine ⟨by rw [h0]; exact hdef, fun o' ho' => ?_⟩
+          have := hall' o' (List.mem_cons_of_mem _ ho')
+          rw [this, h0]; exact ⟨hdef, rfl⟩
+        rw [if_pos hcond, h0]
+      rw [this]; exact B4.le_refl _
+  · have : mergeBit data i = .x := by cases hm : mergeBit data i <;> simp_all [B4.isDef]
+    rw [this]; exact B4.x_le _
+
+/-- **the multiplexer is monotone** (`Node_Multiplexer.cpp:37-137` with the range test on the largest possible selector):
+    an undefined selector that may address nothing gives an undefined output, otherwise the merge of all inputs refines to
+    every in-range selection and to every merge of refined inputs -/
+theorem evalMux_mono (w : Nat) {a b : Ins} (h : InsLe a b) : evalMux w a ⊑ evalMux w b := by
   cases a with
-  | nil => rw [forall2_nil_inv h]; exact compat_refl _
+  | nil => rw [forall2_nil_inv h]; exact le_refl _
   | cons s data =>
     obtain ⟨s', data', rfl, hs, hd⟩ := forall2_cons_inv h
     cases s with
-    | none => rw [optCompat_none_inv hs]; simp [evalMux]; exact compat_refl _
+    | none => rw [optLe_none_inv hs]; simp [evalMux]; exact le_refl _
     | some sel =>
-      obtain ⟨sel', rfl, hsel⟩ := optCompat_some_inv hs
+      obtain ⟨sel', rfl, hsel⟩ := optLe_some_inv hs
       have hlen := forall₂_length hd
       simp only [evalMux]
       by_cases h1 : sel.allDef = true
-      · by_cases h2 : sel'.allDef = true
-        · have := eq_of_compat_of_allDef hsel h1 h2
-          subst this
-          simp only [h1, Bool.not_true, Bool.false_eq_true, if_false, hlen]
-          split
-          · exact compat_refl _
-          · exact copyIn_compat w (insCompat_getD hd _)
-        · simp only [h1, h2, Bool.not_true, Bool.not_false, Bool.false_eq_true, if_false, if_true]
-          exact compat_symm (merge_compat_select w (forall₂_symm (fun _ _ => optCompat_symm) hd) _)
-      · by_cases h2 : sel'.allDef = true
-        · simp only [h1, h2, Bool.not_true, Bool.not_false, Bool.false_eq_true, if_false, if_true]
-          exact merge_compat_select w hd _
-        · simp only [h1, h2, Bool.not_false, if_true]
-          exact merge_compat_merge w hd
+      · have := eq_of_le_of_allDef hsel h1
+        subst this
+        simp only [h1, Bool.not_true, Bool.false_eq_true, if_false, hlen]
+        split
+        · exact le_refl _
+        · exact copyIn_mono w (insLe_getD hd _)
+      · simp only [h1, Bool.not_false, if_true]
+        by_cases hr : sel.maxNat ≥ data.length
+        · rw [if_pos hr]
+          have := length_evalMux w (some sel' :: data')
+          simp only [evalMux] at this
+          exact undef_le this
+        · rw [if_neg hr]
+          have hmax := maxNat_anti hsel
+          by_cases h2 : sel'.allDef = true
+          · simp only [h2, Bool.not_true, Bool.false_eq_true, if_false]
+            have hlt : sel'.toNat < data.length := by have := toNat_le_maxNat sel'; omega
+            rw [if_neg (by omega)]
+            exact merge_le_select w hd _ hlt
+          · simp only [h2, Bool.not_false, if_true]
+            rw [if_neg (by omega)]
+            exact merge_le_merge w hd
 
-/-- monotone when every selector value addresses an input -/
+/-- special case kept under its old name: every selector value addresses an input -/
 theorem evalMux_mono_inrange (w : Nat) {sel sel' : BV4} {data data' : Ins} (hs : sel ⊑ sel') (hd : InsLe data data')
-    (hr : 2 ^ sel.length ≤ data.length) :
-    evalMux w (some sel :: data) ⊑ evalMux w (some sel' :: data') := by
-  have hlen := forall₂_length hd
-  simp only [evalMux]
-  by_cases h1 : sel.allDef = true
-  · have := eq_of_le_of_allDef hs h1
-    subst this
-    simp only [h1, Bool.not_true, Bool.false_eq_true, if_false, hlen]
-    split
-    · exact le_refl _
-    · exact copyIn_mono w (insLe_getD hd _)
-  · simp only [h1, Bool.not_false, if_true]
-    by_cases h2 : sel'.allDef = true
-    · simp only [h2, Bool.not_true, Bool.false_eq_true, if_false]
-      have hlt : sel'.toNat < data'.length := by
-        have := toNat_lt sel'; rw [← hs.1] at this; omega
-      simp only [show ¬ (sel'.toNat ≥ data'.length) by omega, if_false]
-      refine ⟨by simp [length_copyIn], fun i => ?_⟩
-      rw [bit_tab]
-      by_cases hi : i < w
-      · simp only [hi, if_true]
-        by_cases hdef : (mergeBit data i).isDef = true
-        · have hmem : data.getD sel'.toNat none ∈ data := by
-            rw [List.getD_eq_getElem?_getD, List.getElem?_eq_getElem (by omega)]; simp
-          obtain ⟨u, hu, hbit⟩ := mergeBit_def hdef _ hmem
-          have hk := insLe_getD hd sel'.toNat
-          rw [hu] at hk
-          obtain ⟨u', hu', hle⟩ := optLe_some_inv hk
-          rw [hu']
-          simp only [copyIn, bit_tab, hi, if_true]
-          rw [← hbit]; exact hle.2 i
-        · have : mergeBit data i = .x := by cases hm : mergeBit data i <;> simp_all [B4.isDef]
-          rw [this]; exact B4.x_le _
-      · simp only [hi, if_false]; exact B4.x_le _
-    · simp only [h2, Bool.not_false, if_true]
-      apply tab_le
-      intro i _
-      by_cases hdef : (mergeBit data i).isDef = true
-      · -- every input of the refined list carries the same defined bit
-        have hall := mergeBit_def' hdef
-        have hall' : ∀ o', o' ∈ data' → optBit o' i = mergeBit data i := by
-          intro o' ho'
-          obtain ⟨k, hk, hget⟩ := List.getElem_of_mem ho'
-          have hk2 : k < data.length := by omega
-          have hle' := forall₂_getD hd none none trivial k
-          rw [List.getD_eq_getElem?_getD, List.getD_eq_getElem?_getD, List.getElem?_eq_getElem hk, List.getElem?_eq_getElem hk2] at hle'
-          simp only [Option.getD_some] at hle'
-          have h0 := hall data[k] (List.getElem_mem hk2)
-          rw [hget] at hle'
-          cases hdk : data[k] with
-          | none => rw [hdk] at h0; rw [← h0] at hdef; simp [optBit, B4.isDef] at hdef
-          | some v =>
-            rw [hdk] at hle' h0
-            obtain ⟨v', rfl, hle2⟩ := optLe_some_inv hle'
-            have := hle2.2 i
-            simp only [optBit] at h0 ⊢
-            rw [h0] at this
-            exact (B4.eq_of_le_of_isDef this hdef).symm
-        cases data' with
-        | nil =>
-          cases data with
-          | nil => simp [mergeBit, B4.isDef] at hdef
-          | cons _ _ => simp at hlen
-        | cons d0' rest' =>
-          have h0 := hall' d0' (List.mem_cons_self ..)
-          have : mergeBit (d0' :: rest') i = mergeBit data i := by
-            conv => lhs; unfold mergeBit
-            dsimp only
-            have hcond : ((optBit d0' i).isDef && rest'.all (fun o => (optBit o i).isDef && (optBit o i).val == (optBit d0' i).val)) = true := by
-              simp only [Bool.and_eq_true, List.all_eq_true, beq_iff_eq]
-              refine ⟨by rw [h0]; exact hdef, fun o' ho' => ?_⟩
-              have := hall' o' (List.mem_cons_of_mem _ ho')
-              rw [this, h0]; exact ⟨hdef, rfl⟩
-            rw [if_pos hcond, h0]
-          rw [this]; exact B4.le_refl _
-      · have : mergeBit data i = .x := by cases hm : mergeBit data i <;> simp_all [B4.isDef]
-        rw [this]; exact B4.x_le _
+    (_hr : 2 ^ sel.length ≤ data.length) :
+    evalMux w (some sel :: data) ⊑ evalMux w (some sel' :: data') :=
+  evalMux_mono w (.cons hs hd)
 
 /-! ## all node kinds -/
 
-/-- every kind but the multiplexer -/
-def NodeKind.isMux : NodeKind → Bool
-  | .mux => true
-  | _ => false
-
-theorem evalNode_mono (k : NodeKind) (hk : k.isMux = false) (w : Nat) {a b : Ins} (h : InsLe a b) :
+/-- **every core node is monotone**: more defined inputs give a result that is at least as defined and agrees on every bit
+    that was already defined -/
+theorem evalNode_mono (k : NodeKind) (w : Nat) {a b : Ins} (h : InsLe a b) :
     evalNode k w a ⊑ evalNode k w b := by
   cases k with
   | logic op => exact evalLogic_mono op w h
@@ -266,17 +237,17 @@ theorem evalNode_mono (k : NodeKind) (hk : k.isMux = false) (w : Nat) {a b : Ins
   | compare op ty => exact evalCompare_mono op h
   | shift d f => exact evalShift_mono d f w h
   | rewire rs => exact evalRewire_mono rs h
-  | mux => simp [NodeKind.isMux] at hk
+  | mux => exact evalMux_mono w h
   | prio => exact evalPrio_mono w h
   | const v => exact le_refl _
 
+/-- compatible inputs (no contradicting defined bits) give compatible outputs: both refine to the value at the join -/
 theorem evalNode_compat (k : NodeKind) (w : Nat) {a b : Ins} (h : InsCompat a b) :
-    compat (evalNode k w a) (evalNode k w b) := by
-  by_cases hk : k.isMux = true
-  · cases k <;> simp [NodeKind.isMux] at hk
-    exact evalMux_compat w h
-  · have hk : k.isMux = false := by simpa using hk
-    exact compat_of_le_le (evalNode_mono k hk w (insLe_join_left h)) (evalNode_mono k hk w (insLe_join_right h))
+    compat (evalNode k w a) (evalNode k w b) :=
+  compat_of_le_le (evalNode_mono k w (insLe_join_left h)) (evalNode_mono k w (insLe_join_right h))
+
+theorem evalMux_compat (w : Nat) {a b : Ins} (h : InsCompat a b) : compat (evalMux w a) (evalMux w b) :=
+  evalNode_compat .mux w h
 
 /-! ## combinational netlists -/
 
@@ -323,29 +294,21 @@ theorem evalNetFrom_compat {env env' : Env} (he : EnvCompat env env') (net : Lis
     simp only [evalNetFrom]
     exact ih (forall₂_append h (.cons (evalNetNode_compat he h n) .nil))
 
-/-- netlists without multiplexers (or with in-range multiplexers only, see `evalMux_mono_inrange`) are monotone -/
-def muxFree (net : List NetNode) : Bool := net.all fun n => match n.kind with
-  | .node k _ => !k.isMux
-  | _ => true
-
-theorem evalNetNode_mono {env env' : Env} (he : EnvLe env env') {v v' : Vals} (h : ValsLe v v') (n : NetNode)
-    (hm : (match n.kind with | .node k _ => !k.isMux | _ => true) = true) :
+theorem evalNetNode_mono {env env' : Env} (he : EnvLe env env') {v v' : Vals} (h : ValsLe v v') (n : NetNode) :
     optLe (evalNetNode env v n) (evalNetNode env' v' n) := by
   unfold evalNetNode
-  cases hk : n.kind with
+  cases n.kind with
   | input k => exact forall₂_getD he _ _ (le_refl _) k
   | signal => exact forall₂_getD (gather_le h n.ins) none none trivial 0
-  | node k ty =>
-    rw [hk] at hm
-    exact evalNode_mono k (by simpa using hm) n.w (gather_le h n.ins)
+  | node k ty => exact evalNode_mono k n.w (gather_le h n.ins)
 
-theorem evalNetFrom_mono {env env' : Env} (he : EnvLe env env') (net : List NetNode) (hm : muxFree net = true)
+/-- **every combinational netlist is monotone**: refining the stimulus refines the value of every node -/
+theorem evalNetFrom_mono {env env' : Env} (he : EnvLe env env') (net : List NetNode)
     {v v' : Vals} (h : ValsLe v v') : ValsLe (evalNetFrom env net v) (evalNetFrom env' net v') := by
   induction net generalizing v v' with
   | nil => exact h
   | cons n ns ih =>
-    simp only [muxFree, List.all_cons, Bool.and_eq_true] at hm
     simp only [evalNetFrom]
-    exact ih hm.2 (forall₂_append h (.cons (evalNetNode_mono he h n hm.1) .nil))
+    exact ih (forall₂_append h (.cons (evalNetNode_mono he h n) .nil))
 
 end Gatery.Nodes
